@@ -33,6 +33,7 @@ from typing import (
     cast,
     overload,
 )
+from warnings import catch_warnings, simplefilter
 from typing_extensions import Unpack  # noqa: TCH002
 
 from ..exceptions import HelpRequested, ParserError, SubParsersNotInitialized
@@ -444,7 +445,10 @@ def _get_arg_type_wrapper(cls: Type[Any]) -> Callable[[Any], Any]:
         if arg is SUPPRESS:
             return arg
         try:
-            return cls(arg)
+            # (what a client types must not put warnings on the server's stderr)
+            with catch_warnings():
+                simplefilter("ignore", SyntaxWarning)
+                return cls(arg)
         except (ArgumentTypeError, TypeError, ValueError):
             raise  # handled properly by the parser and propagated to the client
         except (Exception, SystemExit) as e:
